@@ -376,3 +376,140 @@ Qed.
 
 Corollary v2_mesh_closed n s : boundary_outside n s -> closed (v2_mesh n s).
 Proof. intros H. eapply closed_perm; [apply Permutation_sym, v2_quad_rule | now apply dual_mesh_closed]. Qed.
+
+(* ================================================================== V1 *)
+(* Octree node handle: Some (level, minOffset) with size = 2^level in leaf cells;
+   None = nil pointer.  Populate allocates every child; a size-1 child without a
+   sign change stays an Internal node whose eight children are nil
+   (computeOctreeLeaf returns before setting kind = Leaf). *)
+Definition node := option (nat * cell).
+Inductive kind := Internal | Leaf.
+
+Definition pow2 (l : nat) : Z := 2 ^ Z.of_nat l.
+Definition cscale (k : Z) (p : cell) : cell := let '(x, y, z) := p in (k * x, k * y, k * z).
+Definition child_off (i : Z) : cell := vec3 (nthZ dcChildMinOffsets i []).
+Definition edge_corners (e : Z) : Z * Z := let r := nthZ dcEdgevmap e [] in (nthZ r 0 0, nthZ r 1 0).
+
+Section V1.
+  Variable s : cell -> bool.
+
+  (* computeOctreeLeaf: corners |= 1<<i for solid corner minOffset + dcChildMinOffsets[i] *)
+  Definition leaf_corners (c : cell) : N := mask (map (fun k => s (cadd c (vec3 k))) dcChildMinOffsets).
+  Definition nonempty (c : cell) : bool := let m := leaf_corners c in negb ((m =? 0) || (m =? 255))%N.
+
+  Definition node_kind (l : nat) (c : cell) : kind :=
+    match l with O => if nonempty c then Leaf else Internal | _ => Internal end.
+  Definition is_nil (nd : node) : bool := match nd with None => true | Some _ => false end.
+  Definition is_internal (nd : node) : bool :=
+    match nd with Some (l, c) => match node_kind l c with Internal => true | Leaf => false end | None => false end.
+  Definition child (nd : node) (i : Z) : node :=
+    match nd with
+    | Some (S l, off) => Some (l, cadd off (cscale (pow2 l) (child_off i)))
+    | _ => None
+    end.
+  Definition sub (nd : node) (i : Z) : node := if is_internal nd then child nd i else nd.
+  Definition node_cell (nd : node) : cell := match nd with Some (_, c) => c | None => (0, 0, 0) end.
+  Definition node_size (nd : node) : Z := match nd with Some (l, _) => pow2 l | None => 0 end.
+
+  (* dcContourProcessEdge: the loop over the four nodes, then the emission *)
+  Definition pe_step (nd : list node) (dir : Z) (st : Z * Z * bool * list bool) (i : Z) : Z * Z * bool * list bool :=
+    let '(minSize, minIndex, flp, sc) := st in
+    let x := nthZ nd i None in
+    let edge := nthZ (nthZ dcProcessEdgeMask dir []) i 0 in
+    let '(c1, c2) := edge_corners edge in
+    let m1 := bit (leaf_corners (node_cell x)) c1 in
+    let m2 := bit (leaf_corners (node_cell x)) c2 in
+    let '(minSize', minIndex', flp') := if node_size x <? minSize then (node_size x, i, m1) else (minSize, minIndex, flp) in
+    (minSize', minIndex', flp', sc ++ [xorb m1 m2]).
+
+  Fixpoint triples (l : list cell) : list tri :=
+    match l with a :: b :: c :: r => (a, b, c) :: triples r | _ => [] end.
+
+  Definition process_edge (nd : list node) (dir : Z) : list tri :=
+    let '(_, minIndex, flp, sc) := fold_left (pe_step nd dir) [0; 1; 2; 3] (9223372036854775807, 0, false, []) in
+    if nthZ sc minIndex false then
+      let order := if negb flp then firstn 6 dcV1ProcessEdgeOrder else skipn 6 dcV1ProcessEdgeOrder in
+      triples (map (fun k => node_cell (nthZ nd k None)) order)
+    else [].
+
+  Fixpoint edge_proc (fuel : nat) (nd : list node) (dir : Z) : list tri :=
+    if existsb is_nil nd then []
+    else if forallb (fun x => negb (is_internal x)) nd then process_edge nd dir
+    else match fuel with
+         | O => []
+         | S f =>
+             flat_map (fun i =>
+               let row := nthZ (nthZ dcEdgeProcEdgeMask dir []) i [] in
+               edge_proc f (map (fun j => sub (nthZ nd j None) (nthZ row j 0)) [0; 1; 2; 3]) (nthZ row 4 0)) [0; 1]
+         end.
+
+  Fixpoint face_proc (fuel : nat) (nd : list node) (dir : Z) : list tri :=
+    if existsb is_nil nd then []
+    else if existsb is_internal nd then
+      match fuel with
+      | O => []
+      | S f =>
+          flat_map (fun i =>
+            let row := nthZ (nthZ dcFaceProcFaceMask dir []) i [] in
+            face_proc f (map (fun j => sub (nthZ nd j None) (nthZ row j 0)) [0; 1]) (nthZ row 2 0)) [0; 1; 2; 3]
+          ++
+          flat_map (fun i =>
+            let row := nthZ (nthZ dcFaceProcEdgeMask dir []) i [] in
+            let order := nthZ dcFaceProcOrders (nthZ row 0 0) [] in
+            edge_proc f (map (fun j => sub (nthZ nd (nthZ order j 0) None) (nthZ row (1 + j) 0)) [0; 1; 2; 3]) (nthZ row 5 0))
+            [0; 1; 2; 3]
+      end
+    else [].
+
+  Fixpoint cell_proc (fuel : nat) (nd : node) : list tri :=
+    if is_nil nd then []
+    else if is_internal nd then
+      match fuel with
+      | O => []
+      | S f =>
+          flat_map (fun i => cell_proc f (child nd i)) [0; 1; 2; 3; 4; 5; 6; 7]
+          ++ flat_map (fun i => let row := nthZ dcCellProcFaceMask i [] in
+                        face_proc f [child nd (nthZ row 0 0); child nd (nthZ row 1 0)] (nthZ row 2 0))
+                      [0; 1; 2; 3; 4; 5; 6; 7; 8; 9; 10; 11]
+          ++ flat_map (fun i => let row := nthZ dcCellProcEdgeMask i [] in
+                        edge_proc f (map (fun j => child nd (nthZ row j 0)) [0; 1; 2; 3]) (nthZ row 4 0))
+                      [0; 1; 2; 3; 4; 5]
+      end
+    else [].
+
+  (* GenerateMesh on the octree of depth d (2^d cells per axis) *)
+  Definition v1_mesh (d : nat) : list tri := cell_proc (S d) (Some (d, (0, 0, 0))).
+End V1.
+
+(* ------------------------------------------------------------------ correspondence *)
+(* sign grid as a bit mask over the points of the n-lattice, x-major: bit ((x*(ny+1)+y)*(nz+1)+z) *)
+Definition grid_sign (n : cell) (bits : N) (p : cell) : bool :=
+  let '(nx, ny, nz) := n in let '(x, y, z) := p in
+  if inlat n p then N.testbit bits (Z.to_N ((x * (ny + 1) + y) * (nz + 1) + z)) else false.
+
+Definition tri_eqb (t u : tri) : bool :=
+  let '(a, b, c) := t in let '(d, e, f) := u in ceqb a d && ceqb b e && ceqb c f.
+Fixpoint tris_eqb (l m : list tri) : bool :=
+  match l, m with
+  | [], [] => true
+  | x :: l', y :: m' => tri_eqb x y && tris_eqb l' m'
+  | _, _ => false
+  end.
+
+(* V2 case: id, cells per axis, sign bits, triangles observed (cell triples, in emission order) *)
+Definition case2 := (N * cell * N * list tri)%type.
+Definition mismatches2 (cs : list case2) : list N :=
+  map (fun c : case2 => let '(id, _, _, _) := c in id)
+      (filter (fun c : case2 => let '(id, n, bits, obs) := c in negb (tris_eqb (v2_mesh n (grid_sign n bits)) obs)) cs).
+
+(* V1 case: id, depth, sign bits over the (2^d+1)^3 points, triangles observed *)
+Definition case1 := (N * nat * N * list tri)%type.
+Definition mismatches1 (cs : list case1) : list N :=
+  map (fun c : case1 => let '(id, _, _, _) := c in id)
+      (filter (fun c : case1 => let '(id, d, bits, obs) := c in
+         let n := (pow2 d, pow2 d, pow2 d) in negb (tris_eqb (v1_mesh (grid_sign n bits) d) obs)) cs).
+
+(* closedness of the observed index triangles, decided inside Coq as well: every directed edge
+   that occurs is matched (used as a cross-check of the harness's own oracle) *)
+Definition closedb (ts : list tri) : bool :=
+  forallb (fun e : cell * cell => dcount ts (fst e) (snd e) =? dcount ts (snd e) (fst e)) (dedges ts).
